@@ -29,7 +29,7 @@ SOURCES = [
     {"cmd": "from-master-xprv", "xk": ("prv", False, 84)},
 ]
 ACCOUNTS = [0, 5, H - 2, 49]
-INTERVALS = [[0, 1], [0, 0], [0, 3], [7, 9], [7, 7], [3, 1]]
+INTERVALS = [[0, 1], [0, 0], [0, 3], [7, 9], [7, 7], [3, 1], [0, 4], [1, 6], [0, 2]]
 ROOT = hd.node_from_priv(0x7A1B2C3D4E5F60718293A4B5C6D7E8F9000102030405060708090A0B0C0D0E0F, bytes.fromhex("c3" * 32))
 
 
